@@ -655,8 +655,8 @@ func (e *env) checkFanoutEx(stable, lossy, churn []*link, items [][]fanItem) {
 						l.name, g.writer, g.index, g.f.Sys, g.f.Comp, g.f.Seq, s.fsys, s.fcomp, s.fseq)
 					return
 				}
-				if g.f.V2 != (e.cfg.version == 2) {
-					dsim.Failf("forwarded-header", "%s: forwarded frame changed version", l.name)
+				if g.f.V2 != s.fv2 {
+					dsim.Failf("forwarded-header", "%s: forwarded frame w%d#%d changed version", l.name, g.writer, g.index)
 					return
 				}
 			} else {
